@@ -168,11 +168,13 @@ theorem clear_behaves_like_fresh_checked (p : Prog) (n : Nat) (s : VmState) (hi 
 
 /-! ## the unconditional statement is false -/
 
-/-- `C05b.staleProg` with a branch on the observed length: `… len; GotoIfTrue 35; Exit; <invalid>` -/
+/-- `C05b.staleProg` (a stale slot read through an open upvalue) with a branch on the observed
+    length: `… len; GotoIfTrue 51; Exit; <invalid>` -/
 def staleProg2 : Prog :=
-  { bytecode := #[31, 31, 5, 7,0,0,0,0,0,0,0, 37, 9,0,0,0, 0,0,0,0, 11, 10,
-                  33, 31, 16, 21, 16, 34, 29, 35,0,0,0, 10, 10, 255],
-    data := #[], labels := [(9, 22)], varNames := [], trace := [] }
+  { bytecode := #[5, 7,0,0,0,0,0,0,0, 31, 42, 9,0,0,0, 0,0,0,0, 9, 45, 1, 1, 17, 0,0,0,0, 40,
+                  18, 0,0,0,0, 11, 10,
+                  31, 16, 44, 0,0,0,0, 34, 29, 51,0,0,0, 10, 10, 255],
+    data := #[], labels := [(9, 36)], varNames := [], trace := [] }
 
 /-- a machine that forces a collection at every allocation; `clear` keeps the schedule -/
 def everyState : VmState := { VmState.fresh C05b.staleCfg with sched := .every }
